@@ -989,6 +989,27 @@ def arith_eval(t, env):
         if lab.endswith("RangeFrom::RangeFrom"):
             return arith_eval(("len", t[1][1]), env) - ops[0]
         raise NotArith("len of " + lab)
+    if k == "len" and isinstance(t[1], tuple) and t[1] and t[1][0] in ("call", "reader", "vfield"):
+        # number of items of an iterator chain / collected vector in terms of the length of what it iterates
+        x = t[1]
+        while isinstance(x, tuple) and x and x[0] in ("reader", "vfield"):
+            x = x[1]
+        if x[0] == "call":
+            name = callee_name(x[1])
+            if name in ("collect", "map", "into_iter", "iter", "iter_mut", "cloned", "copied", "enumerate", "rev", "by_ref", "to_vec", "into_vec", "inspect", "peekable") and x[2]:
+                return arith_eval(("len", x[2][0]), env)
+            if name in ("chunks_exact", "chunks", "rchunks_exact") and len(x[2]) == 2:
+                n, c = arith_eval(("len", x[2][0]), env), arith_eval(x[2][1], env)
+                if c <= 0:
+                    raise NotArith("chunk size")
+                return n // c if name != "chunks" else -(-n // c)
+            if name == "take" and len(x[2]) == 2:
+                return min(arith_eval(("len", x[2][0]), env), arith_eval(x[2][1], env))
+            if name == "skip" and len(x[2]) == 2:
+                return max(arith_eval(("len", x[2][0]), env) - arith_eval(x[2][1], env), 0)
+            if name == "zip" and len(x[2]) == 2:
+                return min(arith_eval(("len", x[2][0]), env), arith_eval(("len", x[2][1]), env))
+        raise NotArith("len of " + str(x[:2]))
     if k == "phi":
         vs = {arith_eval(a, env) for a in t[1]}
         if len(vs) == 1:
